@@ -33,6 +33,7 @@ type Scenario struct {
 	Tag         string    `json:"tag"`
 	Reps        int       `json:"reps"` // wl: construct the list this many times from permuted/duplicated input, report distinct outcomes
 	Line        int       `json:"line"` // mode "line": index of the draw whose every value is tried while all other draws stay fixed
+	Prefault    int       `json:"prefault"` // > 0: before the cell, one more call is made whose source fails at this read (recovered): what a failed call leaves behind must not reach later calls
 }
 
 type LeafEv struct {
@@ -119,6 +120,16 @@ func runCharCell(em *Emitter, id int, sc Scenario, seed int64) {
 func charCellEvents(id int, sc Scenario, seed int64, rp *spg.CharRecipe) (events []interface{}) {
 	restore := setEnv(sc.MaxTrials, sc.FailRateOne)
 	defer restore()
+	if sc.Prefault > 0 {
+		fe := NewEnum(seed + 77)
+		fe.FailAtRead = sc.Prefault
+		fe.Policy = func(j int, n uint32) uint32 { return uint32(fe.Rng.Int63n(int64(n))) }
+		fr := *rp
+		if fr.Length < sc.Prefault {
+			fr.Length = sc.Prefault + 1
+		}
+		fe.Run(nil, func() { fr.Generate() })
+	}
 	before := CharSpecOf(*rp)
 	cell := CellEv{Op: "cell", ID: id, Tag: sc.Tag, Kind: "char", Char: *sc.Char, MaxTrials: spg.MaxTrials, FailRateOne: sc.FailRateOne,
 		Count: []int{}, Den: []int{}, DenInt: -1}
